@@ -38,12 +38,52 @@ pub fn dispatch(p: &[String]) -> String {
         "from_bits" => generated::from_bits(&p[1], p[2].parse::<u32>().unwrap()),
         "operand_params" => generated::operand_params(&p[1], p[2].parse::<u32>().unwrap_or(0)),
         "operand_requires" => generated::operand_requires(&p[1], p[2].parse::<u32>().unwrap_or(0)),
+        "builder_roundtrip" => generated::builder_roundtrip(&p[1]),
         "builder_call" => generated::builder_call(&p[1], p[2].parse::<u32>().unwrap_or(2)),
         "scenario" => {
             let raw = unhex(if p.len() > 2 { &p[2] } else { "" });
             match vscen::run(&p[1], &raw) {
                 Some(c) => format!("{{\"code\": {}}}", c),
                 None => "{\"error\": \"unknown scenario\"}".to_string(),
+            }
+        }
+        "lift_constant" => {
+            let v: u32 = p[2].parse::<u64>().unwrap() as u32;
+            let mut b = rspirv::dr::Builder::new();
+            b.set_version(1, 3);
+            b.memory_model(spirv::AddressingModel::Logical, spirv::MemoryModel::GLSL450);
+            let ty = match p[1].as_str() { "uint" => b.type_int(32, 0), "int" => b.type_int(32, 1), _ => b.type_float(32, None) };
+            b.constant_bit32(ty, v);
+            let m = b.module();
+            match rspirv::lift::LiftContext::convert(&m) {
+                Ok(sm) => format!("{{\"result\": {}}}", jstr(&format!("{:?}", sm.constants))),
+                Err(e) => format!("{{\"result\": {}}}", jstr(&format!("Err({:?})", e))),
+            }
+        }
+        "lift_probe" => generated::lift_probe(p[1].parse::<u32>().unwrap_or(0)),
+        "disas_operand" => generated::disas_operand(&p[1], p[2].parse::<u64>().unwrap_or(0)),
+        "disas_constant" => {
+            // disas_constant <width> <int|float> <signed> <bit pattern>
+            use rspirv::binary::Disassemble;
+            let width: u32 = p[1].parse().unwrap();
+            let v: u64 = p[4].parse().unwrap();
+            let mut b = rspirv::dr::Builder::new();
+            let ty = if p[2] == "float" { b.type_float(width, None) } else { b.type_int(width, p[3].parse::<u32>().unwrap()) };
+            if width == 64 { b.constant_bit64(ty, v); } else { b.constant_bit32(ty, v as u32); }
+            let text = b.module().disassemble();
+            format!("{{\"text\": {}}}", jstr(text.lines().last().unwrap_or("")))
+        }
+        "assemble_operand" => generated::assemble_operand(&p[1], p[2].parse::<u64>().unwrap_or(0)),
+        "load_disassemble" => {
+            use rspirv::binary::{Assemble, Disassemble};
+            let bytes = unhex(&p[1]);
+            match rspirv::dr::load_bytes(&bytes) {
+                Ok(m) => {
+                    let text = m.disassemble();
+                    let words = m.assemble();
+                    format!("{{\"loaded\": true, \"text\": {}, \"words\": [{}]}}", jstr(&text), words.iter().map(|w| w.to_string()).collect::<Vec<_>>().join(", "))
+                }
+                Err(e) => format!("{{\"loaded\": false, \"error\": {}}}", jstr(&format!("{:?}", e))),
             }
         }
         "parse_script" => {
